@@ -1,9 +1,9 @@
 #!/bin/bash
-# seedconfirm.sh <ID> [base=/tmp/seed] [suffix=] : independently confirms a seeded change produced under /tmp/seed/out/<ID>
+# seedconfirm.sh <ID> [base=/tmp/seed] [suffix=] [worktree base=base] : independently confirms a seeded change produced under /tmp/seed/out/<ID>
 # (demo fails with the patch, passes without; touched packages' existing tests pass with the patch)
 # in the scratch worktree /tmp/seed/<ID>, then stores it under /verif/seeded/<ID>/.
 export GOFLAGS=-mod=mod GOPROXY=off GOSUMDB=off GOTOOLCHAIN=local
-ID=$1; B=${2:-/tmp/seed}; SUF=$3; T=$B/$ID; O=$B/out/$ID; L=$B/out/$ID/confirm.log
+ID=$1; B=${2:-/tmp/seed}; SUF=${3:-}; TB=${4:-$B}; T=$TB/$ID; O=$B/out/$ID; L=$B/out/$ID/confirm.log
 cd $T || exit 2
 git checkout -q -- . ; git clean -fdq
 DEMO=$(python3 -c "
